@@ -550,7 +550,14 @@ def autoforwards_ast(func, func_ast, sig, args=(), kwargs={}):
 def autoforwards_method(method, args, kwargs):
     if method.__self__ is None:
         raise UnknownForwards
-    sig = autoforwards(method.__func__, (method.__self__,) + tuple(args), kwargs)
+    try:
+        sig = autoforwards(
+            method.__func__, (method.__self__,) + tuple(args), kwargs)
+    except TypeError:
+        if args or kwargs:
+            raise # the arguments written in a forwarding call do not fit
+        # the function has no parameter that can take the instance
+        raise UnknownForwards()
     try:
         return _signatures.mask(sig, 1)
     except ValueError:
